@@ -123,6 +123,8 @@ struct Explorer<'a> {
     level1: std::cell::Cell<u64>,
     /// destination accepts at most this many bytes per write call (None: everything)
     dest_cap: Option<usize>,
+    /// how many rejected calls a history may contain (a rejected call changes nothing in the model; the history goes on)
+    max_rejected: usize,
 }
 
 impl<'a> Explorer<'a> {
@@ -132,13 +134,14 @@ impl<'a> Explorer<'a> {
         let mut m = WModel::default();
         for i in hist {
             let c = &self.alpha[*i];
-            let _ = apply_call::<V>(&mut w, c);
-            m.apply(c);
+            if apply_call::<V>(&mut w, c).is_ok() {
+                m.apply(c);
+            }
         }
         (w, m)
     }
 
-    fn explore(&self, ctx: &mut Ctx, hist: &mut Vec<usize>, _top: bool) {
+    fn explore(&self, ctx: &mut Ctx, hist: &mut Vec<usize>, rej: usize) {
         if hist.len() >= self.depth || ctx.should_stop() {
             return;
         }
@@ -160,23 +163,13 @@ impl<'a> Explorer<'a> {
                 _ => false,
             };
             if skip_check {
-                let (mut w, _) = self.replay(hist);
-                if apply_call::<V>(&mut w, c).is_ok() {
-                    hist.push(ci);
-                    self.explore(ctx, hist, false);
-                    hist.pop();
-                }
+                self.extend_quietly(ctx, hist, ci, rej);
                 continue;
             }
             let d = || format!("{}history [{}] then {}", match self.dest_cap { Some(n) => format!("destination accepting {} byte(s) per write; ", n), None => String::new() }, hist.iter().map(|i| self.alpha[*i].short()).collect::<Vec<_>>().join(", "), c.short());
             if !ctx.enter(&d) {
                 // in replay modes still walk the tree so that indexes line up: decide acceptance quietly
-                let (mut w, _) = self.replay(hist);
-                if apply_call::<V>(&mut w, c).is_ok() {
-                    hist.push(ci);
-                    self.explore(ctx, hist, false);
-                    hist.pop();
-                }
+                self.extend_quietly(ctx, hist, ci, rej);
                 continue;
             }
             let (mut w, mut m) = self.replay(hist);
@@ -185,10 +178,17 @@ impl<'a> Explorer<'a> {
             let r = apply_call::<V>(&mut w, c);
             ctx.transitions += hist.len() as u64 + 1;
             let mut accepted = false;
+            let mut rejected = false;
             match r {
                 Err(WErr::Panic(p)) => ctx.violation("writer/panic", &d, &p),
                 Err(_) => {
-                    ctx.count("rejected_calls_pruned", 1);
+                    ctx.count(if rej < self.max_rejected { "rejected_calls_extended" } else { "rejected_calls_pruned" }, 1);
+                    // nothing is retracted by a rejected call either
+                    let after: &Vec<u8> = &w.get_ref().data;
+                    if after.len() < before.len() || after[..before.len()] != before[..] {
+                        ctx.violation("flushed-bytes-retracted-or-altered", &d, &format!("before {} after the rejected call {}", hex(&before), hex(after)));
+                    }
+                    rejected = true;
                 }
                 Ok(()) => {
                     accepted = true;
@@ -248,13 +248,52 @@ impl<'a> Explorer<'a> {
             }
             ctx.validated += 1;
             ctx.leave();
-            if accepted {
+            if accepted || (rejected && rej < self.max_rejected) {
                 hist.push(ci);
-                self.explore(ctx, hist, false);
+                self.explore(ctx, hist, if accepted { rej } else { rej + 1 });
                 hist.pop();
             }
         }
     }
+
+    fn extend_quietly(&self, ctx: &mut Ctx, hist: &mut Vec<usize>, ci: usize, rej: usize) {
+        let (mut w, _) = self.replay(hist);
+        match apply_call::<V>(&mut w, &self.alpha[ci]) {
+            Ok(()) => {
+                hist.push(ci);
+                self.explore(ctx, hist, rej);
+                hist.pop();
+            }
+            Err(WErr::Panic(_)) => {}
+            Err(_) => {
+                if rej < self.max_rejected {
+                    hist.push(ci);
+                    self.explore(ctx, hist, rej + 1);
+                    hist.pop();
+                }
+            }
+        }
+    }
+}
+
+/// explicit size widths that the content may outgrow: the End is then rejected, and the history goes on
+pub fn width_alphabet() -> Vec<WCall> {
+    let t = |i: NItem, o: WOpt| WCall::Tag(i, o);
+    vec![
+        t(NItem::Start(ID_ROOT), WOpt::Width(1)),
+        t(NItem::Start(ID_ROOT), WOpt::Unknown),
+        t(NItem::Start(ID_M), WOpt::Width(1)),
+        t(NItem::Start(ID_M), WOpt::Default),
+        t(NItem::End(ID_ROOT), WOpt::Default),
+        t(NItem::End(ID_M), WOpt::Default),
+        t(NItem::Leaf(ID_S, Val::S("x".repeat(127))), WOpt::Default),
+        t(NItem::Leaf(ID_U, Val::U(1)), WOpt::Default),
+        t(NItem::Leaf(ID_MU, Val::U(2)), WOpt::Default),
+        t(NItem::Full(ID_M, vec![NItem::Full(ID_N, vec![NItem::Full(ID_K, vec![NItem::Full(ID_L, vec![NItem::Leaf(ID_LB, Val::B(vec![0x3c; 120]))])])])]), WOpt::Default),
+        t(NItem::Start(ID_EBML), WOpt::Default),
+        t(NItem::End(ID_EBML), WOpt::Default),
+        WCall::Flush,
+    ]
 }
 
 pub fn run(ctx: &mut Ctx) {
@@ -262,20 +301,26 @@ pub fn run(ctx: &mut Ctx) {
     assert_spec_matches::<V>(&rs);
     let alpha = alphabet(!ctx.quick());
     let depth = ctx.tier.pick(8, 10);
-    ctx.meta("rule", "cases: every sequence of writer calls up to the depth bound over the call alphabet (Start of Root/M/N known-size, with explicit width, with unknown size via write_advanced and via the deprecated call; End of each; leaves with default and explicit width; Full of a one- and a two-level subtree; write_raw; flush), explored depth-first on the real TagWriter (a rejected call is not extended; once over a destination that accepts every write whole and, two levels shallower, over destinations that accept 1 resp. 3 bytes per write call), destination inspected after EVERY call and into_inner() tried in EVERY reached state. Oracle: reference model of open chain + accepted tags: destination only grows by appending; while a known-size master stays open it does not grow; after an element / Full / End / flush call with no known-size master open a strict read of the destination yields exactly the accepted tags (plus the Ends end-of-input supplies for unknown-size masters still open); into_inner's output extends what was handed over and reads as all accepted tags with everything closed. Non-trivial: states with both a known- and an unknown-size master open.");
+    ctx.meta("rule", "cases: every sequence of writer calls up to the depth bound over the call alphabet (Start of Root/M/N known-size, with explicit width, with unknown size via write_advanced and via the deprecated call; End of each; leaves with default and explicit width; Full of a one- and a two-level subtree; write_raw; flush), explored depth-first on the real TagWriter (a rejected call is not extended; once over a destination that accepts every write whole and, two levels shallower, over destinations that accept 1 resp. 3 bytes per write call), plus a second alphabet around masters with an explicit 1-byte size field (content of 127+ bytes makes their End fail) explored with at most one REJECTED call per history, after which the history goes on with the model unchanged; destination inspected after EVERY call and into_inner() tried in EVERY reached state. Oracle: reference model of open chain + accepted tags: destination only grows by appending; while a known-size master stays open it does not grow; after an element / Full / End / flush call with no known-size master open a strict read of the destination yields exactly the accepted tags (plus the Ends end-of-input supplies for unknown-size masters still open); into_inner's output extends what was handed over and reads as all accepted tags with everything closed. Non-trivial: states with both a known- and an unknown-size master open.");
     ctx.meta("bounds", &format!("alphabet {} calls, depth {}", alpha.len(), depth));
     ctx.meta("assumptions", "global elements are not in the alphabet (a global directly after an unknown-size master's End is inherently ambiguous on read-back) || reader tolerates unknown ids for the write_raw tag");
-    for c in ["complete_states_checked", "rejected_calls_pruned", "short_write_destinations"] {
+    for c in ["complete_states_checked", "rejected_calls_pruned", "rejected_calls_extended", "short_write_destinations"] {
         ctx.expect_nonzero(c);
     }
-    let e = Explorer { alpha: &alpha, depth, rcfg: Cfg::strict().with_allow(ALLOW_IDS), level1: std::cell::Cell::new(0), dest_cap: None };
+    let e = Explorer { alpha: &alpha, depth, rcfg: Cfg::strict().with_allow(ALLOW_IDS), level1: std::cell::Cell::new(0), dest_cap: None, max_rejected: 0 };
     let mut hist = Vec::new();
-    e.explore(ctx, &mut hist, true);
+    e.explore(ctx, &mut hist, 0);
+    // histories that go on after a rejected call (at most one per history): masters with an explicit 1-byte size field
+    // whose End is rejected once the content has outgrown it
+    let walpha = width_alphabet();
+    let e = Explorer { alpha: &walpha, depth: ctx.tier.pick(6, 7), rcfg: Cfg::strict().with_allow(ALLOW_IDS), level1: std::cell::Cell::new(0), dest_cap: None, max_rejected: 1 };
+    let mut hist = Vec::new();
+    e.explore(ctx, &mut hist, 0);
     // the same exploration, two levels shallower, over destinations that take 1 resp. 3 bytes per write call
     for cap in [1usize, 3] {
-        let e = Explorer { alpha: &alpha, depth: depth.saturating_sub(2), rcfg: Cfg::strict().with_allow(ALLOW_IDS), level1: std::cell::Cell::new(0), dest_cap: Some(cap) };
+        let e = Explorer { alpha: &alpha, depth: depth.saturating_sub(2), rcfg: Cfg::strict().with_allow(ALLOW_IDS), level1: std::cell::Cell::new(0), dest_cap: Some(cap), max_rejected: 0 };
         let mut hist = Vec::new();
-        e.explore(ctx, &mut hist, true);
+        e.explore(ctx, &mut hist, 0);
         ctx.count("short_write_destinations", 1);
     }
 }
